@@ -379,6 +379,12 @@ func Gen(prop, tier string, seed, run uint64) Plan {
 			viewOps = append(viewOps, Op{C: CView, K: "ReleaseView", V: v})
 		}
 	}
+	if (prop == "C09" || prop == "C12" || prop == "C13") && r.IntN(4) == 0 {
+		// fault: an upload that is not a capture file at all, or a cut one
+		bad := Op{C: CImp, K: "ImportBad", V: r.IntN(3)}
+		at := r.IntN(len(impOps) + 1)
+		impOps = append(impOps[:at], append([]Op{bad}, impOps[at:]...)...)
+	}
 	for _, o := range impOps {
 		add(o)
 	}
